@@ -401,8 +401,9 @@ impl Compiler {
                 self.compile_node(*value, ctx)?
             }
             Node::MapPattern { .. } | Node::MapKeyRebind { .. } => {
-                // Map patterns are compiled in expressions that support unpacking maps.
-                unreachable!();
+                // Map patterns are compiled in expressions that support unpacking maps,
+                // anywhere else they're a map entry without a value.
+                return self.error(ErrorKind::MissingValueForMapEntry);
             }
             Node::Self_ => {
                 // self is always in register 0
